@@ -89,6 +89,7 @@ inductive Undo where
   | rawSetDir (dirMax : Bool)         -- `func(self, "max" | "min")`: the old direction string
   | objReset (obj : Id → Rat) (dirMax : Bool)
   | addMetsRaw (r : Id) (ps : List (Id × Rat)) (combine : Bool)     -- add_metabolites(…, reversibly=False)
+  | readdRxn (r : Id) (mrCol grCol : Id → Bool)   -- undo of remove_reactions([r]): the reaction, its two variables and the back-references return
 
 structure Sys where
   s : St
@@ -176,6 +177,23 @@ def addMetsRaw (s : St) (r : Id) (ps : List (Id × Rat)) (combine : Bool) : St :
         (if v = r then st' r m else if v = s.rev r then -(st' r m) else s.co m v)
       else s.co m v }
 
+/-! ### removing a reaction (`Model.remove_reactions([r], remove_orphans=False)`) -/
+
+/-- the reaction leaves the model: it is no longer listed, its two variables leave the solver (with them their columns in every constraint and
+    the objective), its metabolites and genes stop listing it.  What the detached reaction object keeps for itself (bounds, stoichiometry, rule)
+    is kept here under its id as well; nothing reads it while `hasR r = false`. -/
+def removeRxnRaw (s : St) (r : Id) : St :=
+  { s with hasR := upd s.hasR r false,
+           hasV := upd (upd s.hasV r false) (s.rev r) false,
+           mr := fun m x => if x = r then false else s.mr m x,
+           gr := fun g x => if x = r then false else s.gr g x }
+
+def readdRxnRaw (s : St) (r : Id) (mrCol grCol : Id → Bool) : St :=
+  { s with hasR := upd s.hasR r true,
+           hasV := upd (upd s.hasV r true) (s.rev r) true,
+           mr := fun m x => if x = r then mrCol m else s.mr m x,
+           gr := fun g x => if x = r then grCol g else s.gr g x }
+
 /-! ### undo -/
 
 def runUndo (s : St) : Undo → Except Err St
@@ -186,6 +204,7 @@ def runUndo (s : St) : Undo → Except Err St
   | .rawSetDir b => .ok { s with dirMax := b }
   | .objReset o d => .ok { s with obj := o, dirMax := d }
   | .addMetsRaw r ps combine => .ok (addMetsRaw s r ps combine)
+  | .readdRxn r mrCol grCol => .ok (readdRxnRaw s r mrCol grCol)
 
 /-- `HistoryManager.reset`: newest first; an undo function that raises ends the replay -/
 def replay (s : St) : List Undo → St × Option Err
@@ -207,6 +226,7 @@ inductive Op where
   | setObj (coefs : List (Id × Rat))
   | setDir (d : DirArg)
   | addMets (r : Id) (ps : List (Id × Rat)) (combine : Bool) (neg : Bool)   -- neg = subtract_metabolites
+  | removeRxn (r : Id)
   | enter
   | exit
 
@@ -284,6 +304,11 @@ def addMets (y : Sys) (r : Id) (ps : List (Id × Rat)) (combine neg : Bool) : Sy
       (push y' (.addMetsRaw r (ps.map (fun p => (p.1, old r p.1))) false), none)
   else (y', none)
 
+/-- `model.remove_reactions([r])` -/
+def removeRxn (y : Sys) (r : Id) : Sys :=
+  let y1 := if inCtx y then push y (.readdRxn r (fun m => y.s.mr m r) (fun g => y.s.gr g r)) else y
+  { y1 with s := removeRxnRaw y.s r }
+
 def enter (y : Sys) : Sys := { y with ctx := [] :: y.ctx }
 
 def exit (y : Sys) : Sys × Option Err :=
@@ -304,6 +329,7 @@ def apply (y : Sys) : Op → Sys × Option Err
   | .setObj coefs => if coefs.all (fun p => y.s.hasR p.1) then (setObjective y coefs false, none) else (y, some .key)
   | .setDir d => setDir y d
   | .addMets r ps combine neg => if y.s.hasR r then addMets y r ps combine neg else (y, some .key)
+  | .removeRxn r => if y.s.hasR r then (removeRxn y r, none) else (y, some .key)
   | .enter => (enter y, none)
   | .exit => exit y
 
